@@ -105,6 +105,11 @@ class RefDict(ImplDict):
                 self.set_item(name, value)
 
     def set_item(self, name, value):
+        model = self.owner.model
+        if (self.owner is not model and not self.owner.is_dynamic()
+                and name in model.global_refs):
+            # The model-level reference of the name gets shadowed
+            model.clear_attr_referrers(model.global_refs[name])
         ImplDict.set_item(self, name,
                           self.wrap_impl(self.owner, name, value))
 
